@@ -8,6 +8,7 @@ import (
 	"os"
 	"os/exec"
 	"runtime"
+	"strconv"
 	"strings"
 	"sync"
 	"time"
@@ -208,17 +209,66 @@ func c11Ask(line string) (ans string, status int, crash string) {
 // stall the run.
 var c11Timeouts = map[string]int{}
 
+// A goroutine that a setup started may panic a moment AFTER the worker has answered the case (the scheduler decides),
+// and the death would be seen while the next case runs.  The worker reports by how many goroutines the process grew
+// during the case (last tag, grew=N); nearly all cases grow it by the same small number (the certificate maintenance
+// of the instance).  After a case that grew it by more, the parent sends a ping — the worker answers it 3 ms later —
+// and takes a worker that dies before the pong as having died of the case.
+const c11Ping = "#ping"
+
+var c11GrewHist = map[int]int{}
+
+func c11UsualGrowth() int {
+	best, n := 0, -1
+	for g, c := range c11GrewHist {
+		if c > n || (c == n && g < best) {
+			best, n = g, c
+		}
+	}
+	return best
+}
+
+// c11AskSettled: one case, plus the ping when the case left more goroutines behind than usual (or always, if `always`).
+func c11AskSettled(stream string, f []string, always bool) (out string, tags []string, status int, crash string) {
+	ans, st, crash := c11Ask(stream + "\t" + strings.Join(f, "\t"))
+	if st != c11Answered {
+		return "", nil, st, crash
+	}
+	out, tagstr, _ := strings.Cut(ans, "\t")
+	grew := 0
+	for _, t := range strings.Split(tagstr, ",") {
+		if strings.HasPrefix(t, "grew=") {
+			grew, _ = strconv.Atoi(t[5:])
+		} else if t != "" {
+			tags = append(tags, t)
+		}
+	}
+	usual := c11UsualGrowth()
+	c11GrewHist[grew]++
+	if always || grew > usual {
+		tags = append(tags, "left-goroutines-behind")
+		ping := make([]string, len(f))
+		for i := range ping {
+			ping[i] = "-"
+		}
+		ping[0] = c11Ping
+		if _, st, crash := c11Ask(stream + "\t" + strings.Join(ping, "\t")); st == c11Died {
+			return "", nil, c11Died, crash
+		}
+	}
+	return out, tags, c11Answered, ""
+}
+
 // c11Isolated evaluates one case of a search stream in the worker.
 func c11Isolated(stream string, f []string, maxTimeouts int) (string, []string) {
 	key := stream + "/" + f[0]
 	if c11Timeouts[key] >= maxTimeouts {
 		return "total", []string{"dir=" + f[0], "trivial-skipped-after-timeout-in-" + f[0]}
 	}
-	line := stream + "\t" + strings.Join(f, "\t")
-	ans, st, crash := c11Ask(line)
+	out, tags, st, crash := c11AskSettled(stream, f, false)
 	if st == c11Died {
 		// once more, alone in a fresh process
-		ans2, st2, crash2 := c11Ask(line)
+		out2, tags2, st2, crash2 := c11AskSettled(stream, f, true)
 		switch st2 {
 		case c11Died:
 			return "PANIC:process:" + crash2, []string{"dir=" + f[0], "process-died"}
@@ -226,7 +276,7 @@ func c11Isolated(stream string, f []string, maxTimeouts int) (string, []string) 
 			return "PANIC:process:(the process died while this case ran, but the case alone does not kill it: an earlier case left the cause behind) " + crash,
 				[]string{"dir=" + f[0], "process-died-unattributed"}
 		}
-		ans, st = ans2, st2
+		out, tags, st, crash = out2, tags2, st2, crash2
 	}
 	switch st {
 	case c11Silent:
@@ -234,11 +284,6 @@ func c11Isolated(stream string, f []string, maxTimeouts int) (string, []string) 
 		return "TIMEOUT:process", []string{"dir=" + f[0], "process-silent"}
 	case c11NoWorker:
 		panic("c11: cannot start the worker process: " + crash)
-	}
-	out, tagstr, _ := strings.Cut(ans, "\t")
-	var tags []string
-	if tagstr != "" {
-		tags = strings.Split(tagstr, ",")
 	}
 	if strings.HasPrefix(out, "TIMEOUT") {
 		c11Timeouts[key]++
